@@ -18,6 +18,7 @@ type Gen struct {
 	R       *lib.Rand
 	W       *World
 	probed  bool
+	Mon     *Monitor
 	Prop    string // "C04" or "C08": shifts the weights
 	AvoidKF bool   // avoid the triggers of the known findings (old-rule refunds, external-token bridge calls)
 }
@@ -136,6 +137,23 @@ func (g *Gen) calls() []callRef {
 
 func (g *Gen) liveChain(c int) bool { return !g.W.stuck[c] }
 
+// extDeposit: an externally-owned token can only come back from chain c after it really arrived there: at most what
+// was observed as executed towards c minus what already came back (the external chain cannot return tokens that are
+// still in flight); sometimes more than the module has locked at all (must be refused)
+func (g *Gen) extDeposit(t, c int) int64 {
+	if g.R.Chance(7) {
+		locked := g.bankBal(c, t, c)
+		if locked.IsInt64() {
+			return locked.Int64() + 1 + int64(g.R.Pick(50))
+		}
+	}
+	lim := new(big.Int).Sub(via(g.Mon.exeVia, t, c), via(g.Mon.depVia, t, c))
+	if lim.Sign() <= 0 || !lim.IsInt64() {
+		return 0
+	}
+	return 1 + int64(g.R.Intn(int(lim.Int64())))
+}
+
 // holder picks a (user, token) pair with a positive balance (bank base coin or ERC-20), mostly; random otherwise
 func (g *Gen) holder(erc bool) (int, int) {
 	if g.R.Chance(10) {
@@ -247,8 +265,11 @@ func (g *Gen) Next(step int) Op {
 		}
 		x := int64(100 + r.Intn(5000))
 		if w.Toks[t].Kind == lib.TokExternal {
-			// an external token can only come back in: amount up to what is locked on that chain (sometimes more)
-			x = g.amt(g.bankBal(c, t, c), 5000)
+			if x = g.extDeposit(t, c); x <= 0 { // nothing of it has arrived on that chain yet: deposit the module-owned token instead
+				t = 1
+				c = g.chainOf(t)
+				x = int64(100 + r.Intn(5000))
+			}
 		}
 		return Op{K: "SendToFx", C: c, T: t, A: g.user(), X: x, Tgt: tgt}
 	}
@@ -437,7 +458,11 @@ func (g *Gen) Next(step int) Op {
 			var toks [][2]int64
 			x := int64(50 + r.Intn(3000))
 			if w.Toks[t].Kind == lib.TokExternal {
-				x = g.amt(g.bankBal(c, t, c), 3000)
+				if x = g.extDeposit(t, c); x <= 0 {
+					t = 1
+					c = g.chainOf(t)
+					x = int64(50 + r.Intn(3000))
+				}
 			}
 			toks = append(toks, [2]int64{int64(t), x})
 			if g.AvoidKF && !okk {
